@@ -19,9 +19,15 @@ RULE = ("one case = (genome, bedGraph state of MC_C09, expression tree) replayed
 NAMES = ["chr1", "chr11", "chr2", "chrX"]
 
 
-def _genome(G):
+def _genome(G, with_ignored=False):
     import bionumpy as bnp
-    return bnp.Genome.from_dict({NAMES[i]: int(n) for i, n in enumerate(G)})
+    sizes = {NAMES[i]: int(n) for i, n in enumerate(G)}
+    if with_ignored:
+        # a contig the genome lists but filters out (as Genome.from_file does with names holding '_'): nothing may depend on it
+        from bionumpy.genomic_data.genome_context import ignore_underscores
+        sizes = dict(list(sizes.items())[:1] + [("chr1_alt", 3)] + list(sizes.items())[1:])
+        return bnp.Genome.from_dict(sizes, filter_function=ignore_underscores)
+    return bnp.Genome.from_dict(sizes)
 
 
 def _apply(t, A, B):
@@ -61,10 +67,18 @@ def _depth(t):
 
 
 def check_vector(v):
+    r = _check(v, False)
+    if hash(json.dumps([v["G"], v["bg"]])) % 3 == 0:
+        r2 = _check(v, True)
+        r = {"n": r["n"] + r2["n"], "nt": r["nt"], "bad": r["bad"] + r2["bad"]}
+    return r
+
+
+def _check(v, with_ignored):
     from bionumpy.datatypes import BedGraph, Interval
     G, bg, tree = v["G"], v["bg"], v["tree"]
     names = NAMES[:len(G)]
-    g = _genome(G)
+    g = _genome(G, with_ignored)
     bad, n = [], 0
     key = json.dumps([G, bg, tree])
     gaps = (not bg) or any(bg[i]["c"] == bg[i + 1]["c"] and bg[i]["e"] < bg[i + 1]["s"] for i in range(len(bg) - 1)) \
@@ -74,7 +88,7 @@ def check_vector(v):
     st = np.array([r["s"] for r in bg], dtype=int)
     en = np.array([r["e"] for r in bg], dtype=int)
     vals = np.array([r["v"] for r in bg], dtype=int)
-    tags = {"op": tree[0], "depth": _depth(tree), "empty": not bg}
+    tags = {"op": tree[0], "depth": _depth(tree), "empty": not bg, "ignored_contig_listed": with_ignored}
 
     def dense(x):
         d = x.to_dict()
@@ -119,11 +133,12 @@ def check_vector(v):
             bad.append({"what": "sum of a genomic array differs from the sum of the dense array", "tags": dict(tags, step=nm),
                         "vector": v, "expected": v["total"], "observed": o})
     if not v["bool"]:
-        o = outcome(lambda: [int(x) for x in np.histogram(R, bins=8, range=(-2, 6))[0].tolist()])
-        n += 1
-        if o != ("ok", v["hist"]):
-            bad.append({"what": "histogram of a genomic array differs from the histogram of the dense array", "tags": dict(tags, step="histogram"),
-                        "vector": v, "expected": v["hist"], "observed": o})
+        for form, f in (("keywords", lambda: np.histogram(R, bins=8, range=(-2, 6))), ("positional", lambda: np.histogram(R, 8, (-2, 6)))):
+            o = outcome(lambda: [int(x) for x in f()[0].tolist()])
+            n += 1
+            if o != ("ok", v["hist"]):
+                bad.append({"what": "histogram of a genomic array differs from the histogram of the dense array", "tags": dict(tags, step="histogram", arguments=form),
+                            "vector": v, "expected": v["hist"], "observed": o})
     # back-conversion
     def runs():
         d = R.get_data()
